@@ -80,6 +80,8 @@ def run(ctx):
     ctx.rule("R20.c", "object printer model: Parameters._pprint interpreted for an object of a class with constructor (self, a, b=<default>, **params) and parameters a, b, c, d, name (b changed "
                       "or not x generated / explicit name x precedence of c): the text parses to one call of the class; positional parameters first and in order; every changed parameter "
                       "appears exactly once with its own printed value; an auto-generated name and unchanged parameters are left out", floor=1)
+    ctx.rule("R20.d", "the recursion guard of the object printer tells a recursive call by (object identity, thread identity), both obtained inside the per-call wrapper of _recursive_repr "
+                      "(a thread identity captured when the decorator is applied makes concurrent printing of a shared nested object emit `...`)", floor=1)
     ctx.not_decided += ["that repr() of the leaf values (strings needing escapes, negative numbers) evaluates back to an equal value (Python's repr, not this code base)",
                         "constructor signatures other than (self, <positional>, <keyword>=default, **params): *args, keyword-only parameters, non-parameter arguments (printed as unknown_value)",
                         "values(onlychanged=True), which decides what counts as changed (C13 decides that values() agrees with attribute access)",
@@ -87,6 +89,7 @@ def run(ctx):
     container_model(ctx, "R20.a")
     float_model(ctx, "R20.b")
     object_printer_model(ctx, "R20.c")
+    recursion_guard_rule(ctx, "R20.d")
 
 
 def float_model(ctx, rule):
@@ -170,13 +173,15 @@ def object_printer_model(ctx, rule):
     f = ctx.repo.func(P + "Parameters._pprint")
     problems, n = [], 0
     import itertools
-    for b_changed, name_kind, c_prec in itertools.product([False, True], ["auto", "explicit"], [None, 0.5]):
+    for b_changed, name_kind, c_prec in itertools.product([False, True, "param-default"], ["auto", "explicit"], [None, 0.5]):
         mkv = lambda nm: Obj(nm, __eqclass__=nm)          # plain values: equal iff the same value
         default_b = mkv("signature_default_of_b")
-        vals = {"a": mkv("value_a"), "b": mkv("value_b") if b_changed else default_b, "c": mkv("value_c"), "d": mkv("default_d"),
+        # "param-default": b holds the default its PARAMETER declares, which differs from the default in the constructor's signature:
+        # values(onlychanged=True) does not list it, yet it must be printed, or the constructor's own default takes over on evaluation
+        vals = {"a": mkv("value_a"), "b": (mkv("value_b") if b_changed else default_b), "c": mkv("value_c"), "d": mkv("default_d"),
                 "name": "Cls00012" if name_kind == "auto" else "my_name"}
         changed = {"a": vals["a"], "c": vals["c"]}
-        if b_changed:
+        if b_changed is True:
             changed["b"] = vals["b"]
         if name_kind == "explicit":
             changed["name"] = vals["name"]
@@ -218,7 +223,8 @@ def object_printer_model(ctx, rule):
             raise AnalysisError("%s: Parameters._pprint is not interpretable precisely (%s)" % (rule, outs[0].notes[:2] if outs else "no outcome"))
         n += 1
         text = outs[0].value
-        desc = "Cls(a, b=<default>, **params) with a given, b %s, c changed, d unchanged, %s name" % ("changed" if b_changed else "at its default", "an auto-generated" if name_kind == "auto" else "an explicit")
+        desc = "Cls(a, b=<default>, **params) with a given, b %s, c changed, d unchanged, %s name" % (
+            "changed" if b_changed is True else "at the default its Parameter declares (which is not the signature's default)" if b_changed else "at its default", "an auto-generated" if name_kind == "auto" else "an explicit")
         try:
             tree = ast.parse(text, mode="eval").body
         except SyntaxError:
@@ -252,3 +258,33 @@ def object_printer_model(ctx, rule):
         ctx.fail(rule, f, f.node, "object printer model: %s (%d disagreeing case(s))" % (problems[0], len(problems)), key=f.qualname + "::object-printer-model")
     else:
         ctx.ok(rule, f, f.node, "object printer model, %d cases: positional parameters first and in order, every changed parameter once with its own printed value, generated names left out" % n)
+
+
+def recursion_guard_rule(ctx, rule):
+    """The recursion guard around the object printer (_recursive_repr) recognises a recursive call by (object, THREAD): the
+    thread identity in the key has to be obtained inside the per-call wrapper.  Captured once when the decorator is
+    applied, every thread shares the importing thread's identity, and a second thread printing an object that is being
+    printed elsewhere gets the fill value `...` -- text that evaluates to Ellipsis."""
+    f = ctx.repo.func("param._utils._recursive_repr")
+    wrappers = [n for n in ast.walk(f.node) if isinstance(n, (ast.FunctionDef, ast.AsyncFunctionDef)) and n is not f.node and any(
+        isinstance(c, ast.Call) and isinstance(c.func, ast.Name) and c.func.id == "user_function" for c in ast.walk(n))]
+    inner = [w for w in wrappers if not any(isinstance(x, (ast.FunctionDef, ast.AsyncFunctionDef)) and x is not w for x in ast.walk(w))]
+    if not inner:
+        raise AnalysisError("%s: the per-call wrapper of _recursive_repr was not found" % rule)
+    w = inner[0]
+    adds = [c for c in ast.walk(w) if isinstance(c, ast.Call) and isinstance(c.func, ast.Attribute) and c.func.attr == "add" and c.args]
+    if not adds:
+        raise AnalysisError("%s: the wrapper of _recursive_repr no longer records the running key" % rule)
+    keyexpr = adds[0].args[0]
+    defs = [keyexpr]
+    if isinstance(keyexpr, ast.Name):
+        defs = [st.value for st in ast.walk(w) if isinstance(st, ast.Assign) and any(isinstance(t, ast.Name) and t.id == keyexpr.id for t in st.targets)]
+    per_call_thread = bool(defs) and all(any(isinstance(c, ast.Call) and norm(c.func).rsplit(".", 1)[-1] in ("get_ident", "current_thread", "get_native_id") for c in ast.walk(d)) for d in defs)
+    per_call_obj = bool(defs) and all(any(isinstance(c, ast.Call) and norm(c.func) == "id" for c in ast.walk(d)) for d in defs)
+    if per_call_thread and per_call_obj:
+        ctx.ok(rule, f, adds[0], "the guard's key is (id(object), thread identity), both obtained inside the per-call wrapper")
+    else:
+        ctx.fail(rule, f, adds[0], "the key of the recursion guard (`%s`) does not obtain the %s inside the per-call wrapper: %s" % (
+            norm(defs[0])[:60] if defs else norm(keyexpr), "thread identity" if per_call_obj else "object identity",
+            "while one thread prints an object, another thread that reaches the same object is taken for a recursive call and prints `...` for it -- the text evaluates to Ellipsis"),
+            key=f.qualname + "::guard-key-not-per-call")
